@@ -277,7 +277,17 @@ impl Sim {
     }
     fn pt(&self, o: &OutPoint) -> (u64, u64) {
         let idx: u32 = o.index().into();
-        (*self.by_hash.get(&o.tx_hash()).unwrap_or(&999_999), idx as u64)
+        let h = o.tx_hash();
+        let id = match self.by_hash.get(&h) {
+            Some(id) => *id,
+            None if h.as_slice()[0] == 0xEE => {
+                let mut b = [0u8; 8];
+                b.copy_from_slice(&h.as_slice()[1..9]);
+                u64::from_le_bytes(b)
+            }
+            None => 999_999,
+        };
+        (id, idx as u64)
     }
 
     fn view(&self) -> View {
@@ -629,7 +639,7 @@ impl Sim {
                 let cb = std::mem::replace(&mut self.callbacks, Callbacks::new());
                 self.pool.verif_remove_committed_txs(std::iter::once(&view), &cb, &HashSet::new());
                 self.callbacks = cb;
-                self.chain.insert(id);
+                // (the pool's snapshot is not advanced: `transaction_exists` keeps answering for the genesis roots only)
                 let rej = self.drain_rejected();
                 out.op(line, &format!("ok {}", set_str(rej.iter().copied())));
                 out.count("commit");
@@ -1115,6 +1125,8 @@ fn replay_case(out: &mut Out, world: &World, ops: &[String]) {
 pub fn run(opts: &Opts) {
     let base = PathBuf::from(format!("/dev/shm/verif-c11-{}", std::process::id()));
     let world = World::new(&base);
+    // add_entry panics are caught and reported as an answer; keep stderr quiet
+    std::panic::set_hook(Box::new(|_| {}));
     let mut out = Out::new(&opts.out);
     if let Some(rp) = &opts.replay {
         let ops = read_replay_ops(rp);
